@@ -31,8 +31,10 @@ list — in particular two schedules cannot be told apart.
 
 Not exhibited by the model (stated in the evidence): Rust closure capture and borrow behaviour;
 the correspondence plan ↔ code is by reading (bracket inventory in `Model/Carrier.lean`), by the
-call-log conformance check of the harness (`plan` requests) and by the batching oracle on the real
-engine (`batch-exec` requests).
+call-log conformance checks of the harness (`plan` requests: Rust re-derivation of the plan from the
+real `IRQuery` ≡ `planOf`, and the lazy call log conforms to it; `carrier-trace` requests: the nested
+call log of a *batched* real run parses as an abstract schedule which the machine serves activation
+for activation) and by the batching oracle on the real engine (`batch-exec` requests).
 -/
 import TrustfallModel.Proofs.Carrier
 import TrustfallModel.Proofs.InterpHom
